@@ -189,6 +189,11 @@ def main(argv=None):
                 for bad in selftest.get('failures', []):
                     all_obs.append(Ob('selftest', '%s|selftest|%s' % (pid, bad), VIOLATION,
                                       detail='checker self-test failed: %s' % bad))
+                if hasattr(mod, 'extra_thorough'):
+                    ex = mod.extra_thorough(args.repo)
+                    extra_cov['extra_thorough'] = ex
+                    for bad in ex.get('failures', []):
+                        all_obs.append(Ob('selftest', '%s|witness|%s' % (pid, bad[:80]), VIOLATION, detail='witness harness failed: %s' % bad))
             except Exception as e:
                 traceback.print_exc()
                 fatal = 'thorough: %s: %s' % (type(e).__name__, e)
